@@ -615,3 +615,155 @@ func aboutLine(c ssa.Value, line ssa.Value, depth int) bool {
 	}
 	return false
 }
+
+// ---------- R2.9: a PB propagation step says "still satisfiable" only for one of three reasons ----------
+
+// The propagation function of a pseudo-boolean constraint is called when a watched literal becomes false. It may
+// answer true because the constraint is already satisfied, because every unbound literal was just propagated, or
+// after it brought the watches up to date. Any other true exit leaves a false literal watched without replacement:
+// later falsifications of unwatched literals go unnoticed and a violated constraint is never detected.
+func ruleR2_9(w *World, r *Report) {
+	r.Rule("R2.9", "the propagation function of a pseudo-boolean constraint returns true only when the constraint was found satisfied, when all its unbound literals were just propagated, or after the call that updates its watches", 1)
+	eff := w.effects()
+	// watch updaters: functions with a single *Clause parameter writing pbData.watched
+	upd := map[*ssa.Function]bool{}
+	for _, fn := range w.Fns {
+		if w.PkgName(fn) != "solver" || fn.Signature.Recv() == nil || fn.Signature.Params().Len() != 1 ||
+			typeShort(fn.Signature.Params().At(0).Type()) != "*solver.Clause" {
+			continue
+		}
+		if eff.WritesAny(fn, "solver.pbData.watched") && fn.Signature.Results().Len() == 0 {
+			upd[fn] = true
+		}
+	}
+	n := 0
+	for _, fn := range w.Fns {
+		if w.PkgName(fn) != "solver" || fn.Signature.Recv() == nil {
+			continue
+		}
+		ps, rs := fn.Signature.Params(), fn.Signature.Results()
+		if ps.Len() != 2 || rs.Len() != 1 || typeShort(ps.At(0).Type()) != "*solver.Clause" || typeShort(ps.At(1).Type()) != "solver.decLevel" || typeShort(rs.At(0).Type()) != "bool" {
+			continue
+		}
+		var updCalls []ssa.CallInstruction
+		for _, ci := range callsIn(fn) {
+			for _, c := range w.Callees[ci] {
+				if upd[c] {
+					updCalls = append(updCalls, ci)
+				}
+			}
+		}
+		if len(updCalls) == 0 {
+			continue
+		}
+		n++
+		key := w.FuncName(fn) + " justifies every true exit"
+		clause, lvl := fn.Params[1], fn.Params[2]
+		var bad []string
+		nRet := 0
+		allInstrs(fn, func(ins ssa.Instruction) {
+			ret, ok := ins.(*ssa.Return)
+			if !ok || len(ret.Results) != 1 {
+				return
+			}
+			if k, ok := ret.Results[0].(*ssa.Const); !ok || k.Value == nil || k.Value.String() != "true" {
+				if _, isConst := ret.Results[0].(*ssa.Const); !isConst {
+					bad = append(bad, "the value returned at "+w.InstrPos(ret)+" is computed, not one of the justified constants")
+				}
+				return
+			}
+			nRet++
+			// (c) watches updated
+			for _, u := range updCalls {
+				if instrDominates(u, ret) {
+					return
+				}
+			}
+			// (a) found satisfied: under the true edge of a boolean co-result of a module call on the clause
+			for _, ec := range dominatingConds(ret.Block()) {
+				if ex, ok := ec.Cond.(*ssa.Extract); ok && ec.True && typeShort(ex.Type()) == "bool" {
+					if c, ok := ex.Tuple.(*ssa.Call); ok {
+						for _, a := range c.Call.Args {
+							if a == ssa.Value(clause) {
+								return
+							}
+						}
+					}
+				}
+			}
+			// (b) everything unbound propagated: in the block of the return (or dominating it under `slack == 0`), a call
+			// f(clause, lvl) of a function that propagates every unbound literal of its argument in a full-range loop
+			for _, ci := range callsIn(fn) {
+				c, ok := ci.(*ssa.Call)
+				if !ok || !instrDominates(c, ret) || len(c.Call.Args) != 3 || c.Call.Args[1] != ssa.Value(clause) || c.Call.Args[2] != ssa.Value(lvl) {
+					continue
+				}
+				for _, callee := range w.Callees[c] {
+					if callee.Signature.Results().Len() == 0 && propagatesAllUnbound(w, callee) {
+						zero := false
+						for _, ec := range dominatingConds(c.Block()) {
+							if bo, ok := ec.Cond.(*ssa.BinOp); ok && ec.True && bo.Op == token.EQL {
+								if k, ok := constInt(bo.Y); ok && k == 0 {
+									zero = true
+								}
+							}
+						}
+						if zero {
+							return
+						}
+					}
+				}
+			}
+			bad = append(bad, "true is returned at "+w.InstrPos(ret)+" although the constraint was not found satisfied, not everything unbound was propagated and the watches were not updated")
+		})
+		if len(bad) > 0 {
+			r.Bad("R2.9", key, w.Pos(fn.Pos()), strings.Join(dedupe(bad), "; ")+": a watched literal that just became false keeps its watch, the constraint is no longer woken when its remaining literals are falsified")
+		} else {
+			r.OK("R2.9", key, w.Pos(fn.Pos()), fmt.Sprintf("%d true exit(s): satisfied / all propagated / watches updated", nRet))
+		}
+	}
+	if n == 0 {
+		r.Unk("R2.9", "PB propagation function", "-", "no method (clause, level) bool calling a watch updater of pbData.watched")
+	}
+}
+
+// propagatesAllUnbound: fn(clause, lvl) runs a full-range loop over its clause argument and hands every literal whose
+// status is Indet to a function that binds it (writes Solver.model) with this clause as reason.
+func propagatesAllUnbound(w *World, fn *ssa.Function) bool {
+	if len(fn.Params) != 3 {
+		return false
+	}
+	eff := w.effects()
+	getter := w.Func("solver", "Clause.Get")
+	lenFn := w.Func("solver", "Clause.Len")
+	ok := false
+	for _, ci := range callsIn(fn) {
+		c, isCall := ci.(*ssa.Call)
+		if !isCall || !inLoop(fn, c.Block()) {
+			continue
+		}
+		binds := false
+		for _, callee := range w.Callees[c] {
+			if eff.WritesAny(callee, "solver.Solver.model") && eff.WritesAny(callee, "solver.Solver.reason") {
+				binds = true
+			}
+		}
+		if !binds {
+			continue
+		}
+		// the literal argument is clause.Get(i) with i full range
+		for _, a := range c.Call.Args {
+			g, isG := a.(*ssa.Call)
+			if !isG || !w.staticCalleeIs(g, getter) || g.Call.Args[0] != ssa.Value(fn.Params[1]) {
+				continue
+			}
+			if fullRangeIndex(g.Call.Args[1], func(b ssa.Value) bool {
+				lc, isL := b.(*ssa.Call)
+				return isL && w.staticCalleeIs(lc, lenFn) && lc.Call.Args[0] == ssa.Value(fn.Params[1])
+			}) {
+				ok = true
+			}
+		}
+	}
+	return ok
+}
